@@ -14,6 +14,7 @@ mod exec_suts;
 mod chan_suts;
 mod cont_suts;
 mod handle_suts;
+mod avg_suts;
 
 use sched::*;
 use serde_json::{json, Value};
